@@ -259,8 +259,8 @@ FAMILIES = [
                       _validate_every=3),
            nonrepro='inconclusive', bounds='2 activities x 1 op, activity 0 cancelled at (c,p)'),
     Family('pair2', fam_prog,
-           thorough=dict(names=['sleep', 'await flag', 'lock', 'await queue', 'borrow'],
-                         k=2, nops=2, cancels=False, _validate_every=11, _max_wall=900),
+           thorough=dict(names=['sleep', 'await flag', 'lock', 'await queue'],
+                         k=2, nops=2, cancels=False, _validate_every=11, _max_wall=1200),
            nonrepro='inconclusive', bounds='2 activities x 2 ops'),
     Family('trio', fam_prog,
            quick=dict(names=['sleep', 'lock', 'await tracked>=x'],
